@@ -4,6 +4,7 @@ import MosnVerif.Lemmas.ConfigPairs2
 import MosnVerif.Lemmas.UpdatesMode
 import MosnVerif.Lemmas.ConfigOrder
 import MosnVerif.Lemmas.ConfigCb
+import MosnVerif.Model.ListenerAddr
 /-!
 # C19 — configuration survives dump and reload unchanged (property theorems only)
 
@@ -713,5 +714,199 @@ theorem sorted_stream_filters_reordered :
     (load (dumpBy Nat.ble p id id id (load c))).listeners = [⟨1, [("StreamFilters", [3, 5, 9]), ("FilterChains", [8, 1])]⟩] := by
   decide +kernel
 end order
+
+/-! ## the listener address keeps its FORM across dump and reload
+
+`v2.Listener` keeps `Addr net.Addr` next to `AddrConfig string`; `MarshalJSON` writes `address` from `Addr.String()`, `UnmarshalJSON` /
+`ParseListenerConfig` resolve `address` into `Addr` (`Gen.ListenerAddr`: the regenerated statement lists and resolver tables). -/
+section listenerAddr
+open MosnVerif.Model.ListenerAddr MosnVerif.Gen.ListenerAddr
+
+/-- **gen_listener_addr_shape**: `MarshalJSON` prints the set `Addr` verbatim (no branch on the address value), `UnmarshalJSON`
+requires an address, defaults / lower-cases the network, resolves by the table tcp / udp / unix (anything else rejected) and stores
+the result; `ParseListenerConfig` resolves the same way and only when `Addr` is not set. -/
+theorem gen_listener_addr_shape :
+    marshal = [.ifAddrSet, .printVerbatim, .marshalConfig] ∧
+    unmarshal = [.decodeConfig, .requireAddress, .defaultTcp, .lowerNetwork, .resolve, .failOnError, .setAddr, .setBufferLimit, .done] ∧
+    parse = [.defaultTcp, .lowerNetwork, .ifAddrNil, .resolve, .failOnError, .setAddr] ∧
+    ["tcp", "udp", "unix", "tcp4", "sctp", ""].map (netKind unmarshalResolvers) = [some .tcp, some .udp, some .unix, none, none, none] ∧
+    parseResolvers = unmarshalResolvers ∧ unmarshalResolvers.length = 3 := by decide
+
+/-- octets of an IPv4 literal -/
+def wfIP : IP → Prop
+  | .v4 a b c d => a ≤ 255 ∧ b ≤ 255 ∧ c ≤ 255 ∧ d ≤ 255
+  | _ => True
+
+def wfAddr : Addr → Prop
+  | .tcp ip p => wfIP ip ∧ p ≤ 65535
+  | .udp ip p => wfIP ip ∧ p ≤ 65535
+  | .unix _ => True
+
+/-- the system resolver answers with IP addresses -/
+def ResOK (res : String → Option IP) : Prop := ∀ s ip, res s = some ip → wfIP ip
+
+theorem parse_print (res : String → Option IP) (ip : IP) (h : wfIP ip) : parseHost res (printIP ip) = some ip := by
+  cases ip <;> simp_all [printIP, parseHost, wfIP]
+
+theorem parseHost_wf (res : String → Option IP) (hres : ResOK res) (h : HostTxt) (ip : IP) (e : parseHost res h = some ip) : wfIP ip := by
+  cases h <;> simp only [parseHost] at e
+  case quad a b c d =>
+    split at e
+    · cases e; assumption
+    · cases e
+  case name s => exact hres s ip e
+  all_goals (cases e; trivial)
+
+theorem kind_networks (n : String) (k : Kind) (h : netKind unmarshalResolvers n = some k) :
+    (n = "tcp" ∧ k = .tcp) ∨ (n = "udp" ∧ k = .udp) ∨ (n = "unix" ∧ k = .unix) := by
+  have e1 : netKind unmarshalResolvers "udp" = some .udp := by decide
+  have e2 : netKind unmarshalResolvers "unix" = some .unix := by decide
+  have e3 : netKind unmarshalResolvers "tcp" = some .tcp := by decide
+  by_cases h1 : n = "udp"
+  · subst h1; rw [e1] at h; cases h; exact Or.inr (Or.inl ⟨rfl, rfl⟩)
+  by_cases h2 : n = "unix"
+  · subst h2; rw [e2] at h; cases h; exact Or.inr (Or.inr ⟨rfl, rfl⟩)
+  by_cases h3 : n = "tcp"
+  · subst h3; rw [e3] at h; cases h; exact Or.inl ⟨rfl, rfl⟩
+  · exfalso
+    have b1 : ("udp" == n) = false := by rw [beq_eq_false_iff_ne]; exact fun e => h1 e.symm
+    have b2 : ("unix" == n) = false := by rw [beq_eq_false_iff_ne]; exact fun e => h2 e.symm
+    have b3 : ("tcp" == n) = false := by rw [beq_eq_false_iff_ne]; exact fun e => h3 e.symm
+    simp [netKind, unmarshalResolvers, List.find?, b1, b2, b3] at h
+
+/-- the resolver that produced the address -/
+def kindMatch : Addr → Kind → Prop
+  | .tcp _ _, k => k = .tcp
+  | .udp _ _, k => k = .udp
+  | .unix _, k => k = .unix
+
+theorem resolve_print (res' : String → Option IP) (k : Kind) (a : Addr) (hk : kindMatch a k)
+    (hw : wfAddr a) : resolve res' k (printAddr a) = some a := by
+  cases a with
+  | tcp ip p => simp only [kindMatch] at hk; subst hk; simp [resolve, printAddr, hw.2, parse_print res' ip hw.1]
+  | udp ip p => simp only [kindMatch] at hk; subst hk; simp [resolve, printAddr, hw.2, parse_print res' ip hw.1]
+  | unix s => simp only [kindMatch] at hk; subst hk; rfl
+
+theorem resolve_wf (res : String → Option IP) (hres : ResOK res) (k : Kind) (t : Txt) (a : Addr) (h : resolve res k t = some a) :
+    wfAddr a ∧ kindMatch a k := by
+  cases k <;> cases t <;> simp only [resolve] at h
+  case tcp.inet hh p =>
+    split at h
+    · cases e : parseHost res hh with
+      | none => simp [e] at h
+      | some ip => simp [e] at h; subst h; exact ⟨⟨parseHost_wf res hres hh ip e, by assumption⟩, rfl⟩
+    · cases h
+  case udp.inet hh p =>
+    split at h
+    · cases e : parseHost res hh with
+      | none => simp [e] at h
+      | some ip => simp [e] at h; subst h; exact ⟨⟨parseHost_wf res hres hh ip e, by assumption⟩, rfl⟩
+    · cases h
+  case unix.path s => cases h; exact ⟨trivial, rfl⟩
+  all_goals cases h
+
+/-- **listener_address_roundtrip**: for EVERY accepted configuration (network tcp / udp / unix in any accepted spelling, address an
+IPv4 literal, `0.0.0.0`, an IPv6 literal, the IPv6 wildcard `[::]`, a bare `:port`, a host name the resolver knows, any port incl. 0,
+any unix path) and every resolver: the dump of the loaded listener loads again — under ANY resolver, the dumped text holds no name —
+to the SAME network and the SAME `Addr`; hence the listen socket is bound the same way: same kind, same family semantics (the
+IPv6 wildcard stays the dual-stack wildcard, `0.0.0.0` stays IPv4-only), same port / path. -/
+theorem listener_address_roundtrip (res : String → Option IP) (hres : ResOK res) (c : Cfg) (l : Loaded) (h : load res c = some l) :
+    ∃ c', dump l = some c' ∧ c'.network = l.network ∧
+      ∀ res', ∃ l', load res' c' = some l' ∧ l'.network = l.network ∧ l'.addr = l.addr ∧ boundOf l'.addr = boundOf l.addr := by
+  obtain ⟨hm, hu, hp, _⟩ := gen_listener_addr_shape
+  simp only [load, hu, hp, and_self, if_true] at h
+  cases hk : netKind unmarshalResolvers (normNet c.network) with
+  | none => simp [hk] at h
+  | some k =>
+    simp only [hk] at h
+    cases hr : resolve res k c.address with
+    | none => simp [hr] at h
+    | some a =>
+      simp only [hr, Option.map_some, Option.some.injEq] at h
+      subst h
+      refine ⟨⟨normNet c.network, printAddr a⟩, by simp [dump, hm], rfl, fun res' => ?_⟩
+      obtain ⟨hw, hka⟩ := resolve_wf res hres k c.address a hr
+      have hn : normNet (normNet c.network) = normNet c.network := by
+        rcases kind_networks _ _ hk with ⟨e, _⟩ | ⟨e, _⟩ | ⟨e, _⟩ <;> rw [e] <;> decide
+      refine ⟨⟨normNet c.network, a, printAddr a⟩, ?_, rfl, rfl, rfl⟩
+      simp only [load, hu, hp, and_self, if_true, hn, hk, resolve_print res' k a hka hw, Option.map_some]
+
+/-- **address_form_stable**: dump ∘ reload ∘ dump = dump — the text written by the second dump is the text of the first. -/
+theorem address_form_stable (res res' : String → Option IP) (hres : ResOK res) (c : Cfg) (l : Loaded) (h : load res c = some l) :
+    ∃ c' l', dump l = some c' ∧ load res' c' = some l' ∧ dump l' = some c' := by
+  obtain ⟨c', hd, hn, hall⟩ := listener_address_roundtrip res hres c l h
+  obtain ⟨l', hl', hn', ha', _⟩ := hall res'
+  refine ⟨c', l', hd, hl', ?_⟩
+  obtain ⟨hm, _⟩ := gen_listener_addr_shape
+  simp only [dump, hm, if_true, Option.some.injEq] at hd ⊢
+  rw [← hd, hn', ha']
+
+/-- … and for every configuration WITHOUT a host name the form itself is kept: the dumped `address` is the configured one
+(`[::]:p` stays `[::]:p`, `:p` stays `:p`, `0.0.0.0:p` stays `0.0.0.0:p`, a unix path stays the path). -/
+theorem address_form_kept (res : String → Option IP) (c : Cfg) (l : Loaded) (h : load res c = some l)
+    (hn : ∀ p s, c.address ≠ .inet (.name s) p) : dump l = some ⟨l.network, c.address⟩ := by
+  obtain ⟨hm, hu, hp, _⟩ := gen_listener_addr_shape
+  simp only [load, hu, hp, and_self, if_true] at h
+  cases hk : netKind unmarshalResolvers (normNet c.network) with
+  | none => simp [hk] at h
+  | some k =>
+    simp only [hk] at h
+    cases hr : resolve res k c.address with
+    | none => simp [hr] at h
+    | some a =>
+      simp only [hr, Option.map_some, Option.some.injEq] at h
+      subst h
+      simp only [dump, hm, if_true, Option.some.injEq, Cfg.mk.injEq, true_and]
+      cases k <;> cases hc : c.address <;> rw [hc] at hr <;> simp only [resolve] at hr
+      case tcp.inet hh p =>
+        split at hr
+        · cases hh <;> simp [parseHost] at hr <;> first | (exact absurd hc (hn _ _)) | skip
+          all_goals first | (subst hr; rfl) | (obtain ⟨_, hr⟩ := hr; subst hr; rfl)
+        · cases hr
+      case udp.inet hh p =>
+        split at hr
+        · cases hh <;> simp [parseHost] at hr <;> first | (exact absurd hc (hn _ _)) | skip
+          all_goals first | (subst hr; rfl) | (obtain ⟨_, hr⟩ := hr; subst hr; rfl)
+        · cases hr
+      case unix.path s => cases hr; rfl
+      all_goals cases hr
+
+/-- **name_form_lost** (negation witness for host names, machine-checked; the code as it is): `localhost:80` is dumped as the literal
+the resolver answered at load time; when the name resolves differently at the next start, a start from the ORIGINAL file listens on
+the new address, a start from the DUMP on the old one: the dump is not an equivalent configuration. -/
+theorem name_form_lost :
+    let res1 : String → Option IP := fun s => if s = "localhost" then some (.v4 127 0 0 1) else none
+    let res2 : String → Option IP := fun s => if s = "localhost" then some (.v4 10 0 0 7) else none
+    let c : Cfg := ⟨"tcp", .inet (.name "localhost") 80⟩
+    (load res1 c).bind dump = some ⟨"tcp", .inet (.quad 127 0 0 1) 80⟩ ∧
+    (load res2 c).map (fun l => boundOf l.addr) = some (.inet .tcp (.host4 10 0 0 7) 80) ∧
+    (load res2 ⟨"tcp", .inet (.quad 127 0 0 1) 80⟩).map (fun l => boundOf l.addr) = some (.inet .tcp (.host4 127 0 0 1) 80) := by
+  decide
+
+/-- **normalising_marshal_loses_dual_stack** (negation witness, machine-checked): a `MarshalJSON` that writes every unspecified IP
+as `0.0.0.0` turns the dual-stack listeners `[::]:80` and `:80` into IPv4-only ones after a restart from the dump, although the
+second dump equals the first (comparing dumps does not show it); `0.0.0.0:80` itself and the regenerated code are unaffected. -/
+theorem normalising_marshal_loses_dual_stack :
+    let res : String → Option IP := fun _ => none
+    (∀ h ∈ [HostTxt.unspec6, HostTxt.empty],
+      ((load res ⟨"tcp", .inet h 80⟩).map (fun l => boundOf l.addr) = some (.inet .tcp .wildDual 80) ∧
+       ((load res ⟨"tcp", .inet h 80⟩).bind (fun l => load res (dumpNorm l))).map (fun l => boundOf l.addr) = some (.inet .tcp .wild4 80) ∧
+       ((load res ⟨"tcp", .inet h 80⟩).bind (fun l => load res (dumpNorm l))).map dumpNorm =
+         (load res ⟨"tcp", .inet h 80⟩).map dumpNorm ∧
+       ((load res ⟨"tcp", .inet h 80⟩).bind (fun l => (dump l).bind (load res))).map (fun l => boundOf l.addr) =
+         some (.inet .tcp .wildDual 80))) := by
+  decide
+
+-- non-vacuity: a resolver, every accepted form loads, and what is dumped
+example : ResOK (fun s => if s = "localhost" then some (.v4 127 0 0 1) else none) := by
+  intro s ip h; dsimp only at h; split at h <;> cases h; simp [wfIP]
+example : [Cfg.mk "" (.inet (.quad 127 0 0 1) 80), ⟨"tcp", .inet (.quad 0 0 0 0) 0⟩, ⟨"tcp", .inet .unspec6 2045⟩, ⟨"tcp", .inet .loop6 80⟩,
+           ⟨"udp", .inet .empty 53⟩, ⟨"udp", .inet (.other6 "fe80::1") 53⟩, ⟨"unix", .path "/tmp/mosn.sock"⟩, ⟨"tcp", .inet (.name "localhost") 80⟩,
+           ⟨"sctp", .inet .empty 1⟩, ⟨"tcp", .path "/tmp/x"⟩, ⟨"tcp", .inet (.quad 300 1 1 1) 80⟩, ⟨"tcp", .inet .empty 99999⟩].map
+      (fun c => ((load (fun s => if s = "localhost" then some (.v4 127 0 0 1) else none) c).bind dump).map (·.address)) =
+    [some (.inet (.quad 127 0 0 1) 80), some (.inet (.quad 0 0 0 0) 0), some (.inet .unspec6 2045), some (.inet .loop6 80),
+     some (.inet .empty 53), some (.inet (.other6 "fe80::1") 53), some (.path "/tmp/mosn.sock"), some (.inet (.quad 127 0 0 1) 80),
+     none, none, none, none] := by decide
+end listenerAddr
 
 end MosnVerif.Props.C19
